@@ -143,9 +143,9 @@ func (d *rbDrv) sizes() []int64 {
 func rbJumps(r *rand.Rand) c12Case {
 	size := int64(1 << uint(r.Intn(11)))
 	cur := int64(r.Intn(65536))
-	ops := phased(3, func(int) []opx {
+	ops := phased(r, 1, func(_ int, _ *rand.Rand) []opx {
 		var o []opx
-		for i := 0; i < 60; i++ {
+		for i := 0; i < 150; i++ {
 			switch r.Intn(8) {
 			case 0:
 				cur += size - 1 + int64(r.Intn(3))
@@ -198,12 +198,18 @@ func amCase(r *rand.Rand, kind string, n, fbEvery int) c12Case {
 	pat := pattern(r, kind, n)
 	base := int64(r.Intn(100000))
 	t := int64(600000)
-	cnt := 0
+	span := int64(n)
+	for _, off := range pat {
+		if off >= span {
+			span = off + 1
+		}
+	}
 	step := int64(100 + r.Intn(3000))
-	ops := phased(4, func(p int) []opx {
+	ops := phased(r, 4, func(p int, r *rand.Rand) []opx {
 		var o []opx
+		cnt := 0
 		for _, off := range pat {
-			s := base + int64(p)*int64(n) + off
+			s := base + int64(p)*span + off
 			t += step
 			o = append(o, opx{Op: 1, Args: []int64{s, t}})
 			cnt++
@@ -255,19 +261,13 @@ func lruCase(r *rand.Rand, kind string, n int) c12Case {
 	ns := int64(1 + r.Intn(3))
 	for i := range c.Ops {
 		if c.Ops[i].Op == 1 {
-			ssrc := int64(i) % ns
+			ssrc := (int64(i) / 40) % ns
 			c.Ops[i].Args[0] += ssrc << 16
 			if r.Intn(20) == 0 && i > 300 { // touch an old key again (MoveToFront)
-				c.Ops[i].Args[0] = c.Ops[i-1-r.Intn(300)].Args[0]
-				if len(c.Ops[i].Args) == 0 {
-					c.Ops[i].Args = []int64{0}
+				if j := i - 1 - r.Intn(300); c.Ops[j].Op == 1 {
+					c.Ops[i].Args[0] = c.Ops[j].Args[0]
 				}
 			}
-		}
-	}
-	for i := range c.Ops { // marks have no args; the loop above may have copied one
-		if c.Ops[i].Op == opMark {
-			c.Ops[i].Args = []int64{}
 		}
 	}
 
@@ -322,7 +322,7 @@ func (d *srDrv) sizes() []int64 {
 }
 
 func srCase(r *rand.Rand) c12Case {
-	ops := phased(4, func(int) []opx {
+	ops := phased(r, 4, func(_ int, r *rand.Rand) []opx {
 		var o []opx
 		for i := 0; i < 40; i++ {
 			if r.Intn(2) == 0 {
@@ -386,7 +386,7 @@ func (d *siDrv) close()         { _ = d.i.Close() }
 
 func siCase(r *rand.Rand, unbind bool) c12Case {
 	next := int64(1)
-	ops := phased(4, func(int) []opx {
+	ops := phased(r, 4, func(_ int, r *rand.Rand) []opx {
 		var o []opx
 		k := 3 + r.Intn(4)
 		var mine []int64
@@ -546,7 +546,7 @@ func (d *ffDrv) sizes() []int64 {
 }
 
 func ffCase(r *rand.Rand, numMedia int64) c12Case {
-	ops := phased(4, func(int) []opx {
+	ops := phased(r, 4, func(_ int, r *rand.Rand) []opx {
 		var o []opx
 		ns := 1 + r.Intn(3)
 		for s := 1; s <= ns; s++ {
@@ -673,7 +673,7 @@ func (d *pcDrv) close() { _ = d.i.Close() }
 
 func fqCase(r *rand.Rand, comp, mode int64) c12Case {
 	n := 100 + r.Intn(200)
-	ops := phased(4, func(int) []opx {
+	ops := phased(r, 4, func(int, *rand.Rand) []opx {
 		o := make([]opx, n)
 		for i := range o {
 			o[i] = opx{Op: 1, Args: []int64{}, Sample: mode == 0 && i%10 == 0}
@@ -723,7 +723,7 @@ func histCase(r *rand.Rand, kind string, n, fbEvery int, isTw bool) c12Case {
 		tw = 1
 	}
 	first := true
-	ops := phased(4, func(p int) []opx {
+	ops := phased(r, 4, func(p int, r *rand.Rand) []opx {
 		var o []opx
 		arrived := map[int64]bool{}
 		for _, off := range pat {
@@ -864,6 +864,7 @@ func (d *ngDrv) apply(o opx) []entry {
 		es = append(es, entry{Op: 1, Args: []int64{sentinel}})
 		d.recv(sentinel, d.sentSeq)
 	}
+	d.recv(sentinel, d.sentSeq+1) // the number missing at the previous tick arrives late
 	d.sentSeq += 2
 	d.recv(sentinel, d.sentSeq)
 	for _, s := range d.bound {
@@ -911,24 +912,31 @@ func ngCase(r *rand.Rand, kind string, maxNacks int64) c12Case {
 	base := int64(r.Intn(65536))
 	ns := 1 + r.Intn(2)
 	every := 8 + r.Intn(20)
-	cnt := 0
-	ops := phased(4, func(p int) []opx {
+	rebind := r.Intn(2) == 0
+	span := int64(n)
+	for _, off := range pat {
+		if off >= span {
+			span = off + 1
+		}
+	}
+	ops := phased(r, 4, func(p int, _ *rand.Rand) []opx {
 		var o []opx
+		cnt := 0
 		for s := 1; s <= ns; s++ {
-			if p == 0 || r.Intn(3) == 0 {
+			if p == 0 || (rebind && s == 1) {
 				o = append(o, opx{Op: 1, Args: []int64{int64(s)}})
 			}
 		}
 		for _, off := range pat {
-			seq := (base + int64(p*n) + off) % 65536
+			seq := (base + int64(p)*span + off) % 65536
 			o = append(o, opx{Op: 4, Args: []int64{int64(1 + cnt%ns), seq}})
 			cnt++
 			if cnt%every == 0 {
 				o = append(o, opx{Op: 3, Args: []int64{}, Sample: true})
 			}
 		}
-		if r.Intn(3) == 0 {
-			o = append(o, opx{Op: 2, Args: []int64{int64(1 + r.Intn(ns))}, Sample: true})
+		if rebind { // per-stream state is dropped at Unbind
+			o = append(o, opx{Op: 2, Args: []int64{1}, Sample: true})
 		}
 
 		return o
@@ -969,7 +977,7 @@ func (d *rcDrv) sizes() []int64 {
 func rcCase(r *rand.Rand, monotone bool) c12Case {
 	window := int64(100000 + r.Intn(900000))
 	t := int64(1000000)
-	ops := phased(4, func(int) []opx {
+	ops := phased(r, 4, func(int, *rand.Rand) []opx {
 		var o []opx
 		for i := 0; i < 80; i++ {
 			if monotone {
